@@ -63,6 +63,9 @@ def _data(n=6, t=10):
 
 
 # ------------------------------------------------------------------ families
+HELD = {}      # id(object) -> {mutator: the caller-owned array passed last time}
+
+
 class NetworkFamily:
     name = "network"
     directed = False
@@ -79,14 +82,27 @@ class NetworkFamily:
         return net
 
     def mutate(self, obj, m, v):
+        held = HELD.setdefault(id(obj), {})
+        same = m.endswith("~same")
+        m = m[:-5] if same else m
+
+        def arr(new):
+            """The caller's array: a fresh one, or (~same) the one passed last time, edited in place."""
+            new = np.array(new)
+            old = held.get(m)
+            if same and old is not None and old.shape == new.shape:
+                old[...] = new
+                return old
+            held[m] = new
+            return new
         if m == "adjacency":
-            obj.adjacency = ADJ[self.directed][v].copy()
+            obj.adjacency = arr(ADJ[self.directed][v])
         elif m == "set_edge_list":
             obj.set_edge_list(edge_list(ADJ[self.directed][v], self.directed), n_nodes=6)
         elif m == "node_weights":
-            obj.node_weights = WEIGHTS[v].copy()
+            obj.node_weights = arr(WEIGHTS[v])
         elif m == "set_link_attribute":
-            obj.set_link_attribute("w", link_attr(v))
+            obj.set_link_attribute("w", arr(link_attr(v)))
         elif m == "del_link_attribute":
             obj.del_link_attribute("w")
         else:
@@ -175,7 +191,13 @@ class ResNetworkFamily:
         return ResNetwork(RES[a["R"]].copy(), silence_level=3)
 
     def mutate(self, obj, m, v):
-        obj.update_resistances(RES[v].copy())
+        held = HELD.setdefault(id(obj), {})
+        new = RES[v].copy()
+        if m.endswith("~same") and "R" in held:
+            held["R"][...] = new
+            new = held["R"]
+        held["R"] = new
+        obj.update_resistances(new)
 
     def names(self, obj):
         return [n for n in netcommon.discover(obj)
@@ -357,6 +379,8 @@ FAMILIES = {f.name: f for f in (NetworkFamily(), DirNetworkFamily(), Interacting
 def apply_abs(a, m, v):
     """Python mirror of ObjectSM!Apply (used only to construct the twin; TLC checks it)."""
     a = dict(a)
+    if m.endswith("~same"):
+        m = m[:-5]
     if m in ("adjacency", "set_edge_list"):
         a["A"], a["LA"] = v, 0
     elif m == "node_weights":
